@@ -223,6 +223,8 @@ def trace_line(path, lineno):
 
 
 def write_evidence(prop, tier, level, coverage, wall, violations, assumptions):
+    if "--replay" in sys.argv:
+        return  # a replay of one scenario is not a run of the check: the evidence of the last real run stays
     os.makedirs(os.path.join(ROOT, "evidence"), exist_ok=True)
     ev = {"property_id": prop, "tier": tier, "seed": seed(), "level": level, "coverage": coverage,
           "assumptions": assumptions, "wall_s": round(wall, 2), "violations": violations}
